@@ -36,6 +36,7 @@ type csCfg struct {
 	ViaServe bool `json:"viaServe"`
 	KeepHij  bool `json:"keepHij"`
 	PerIP    bool `json:"perIP"`
+	Busy     bool `json:"busy"`
 }
 
 type csResp struct {
@@ -66,6 +67,7 @@ type csConn struct {
 	handedGid uint64 // goroutine of the hijack handler once the connection was handed over
 	foreignIO []string
 	tcpAddr   bool // report an IPv4 TCP remote address (so that MaxConnsPerIP applies)
+	blocker   bool // the connection that keeps the server at its concurrency limit
 }
 
 func (c *csConn) RemoteAddr() net.Addr {
@@ -108,6 +110,10 @@ type csListener struct {
 	net.Listener
 	got     chan *csConn
 	tcpAddr bool
+	// the first accepted connection is the one that keeps the server busy (marked before the
+	// server can report any state for it)
+	firstIsBlocker bool
+	accepted       int
 }
 
 func (l *csListener) Accept() (net.Conn, error) {
@@ -116,6 +122,10 @@ func (l *csListener) Accept() (net.Conn, error) {
 		return nil, err
 	}
 	cc := &csConn{Conn: c, tcpAddr: l.tcpAddr}
+	l.accepted++
+	if l.firstIsBlocker && l.accepted == 1 {
+		cc.blocker = true
+	}
 	l.got <- cc
 	return cc, nil
 }
@@ -211,6 +221,14 @@ func csRunScaled(b *csBeh, scale int) *csObs {
 	}
 	var srvConn atomic.Pointer[csConn]
 	hijDone := make(chan struct{})
+	blockerIn, blockerGo := make(chan struct{}), make(chan struct{})
+	defer func() {
+		select {
+		case <-blockerGo:
+		default:
+			close(blockerGo)
+		}
+	}()
 	s := &Server{
 		DisableKeepalive:   b.Cfg.Dk,
 		MaxRequestsPerConn: b.Cfg.MaxReqs,
@@ -218,12 +236,16 @@ func csRunScaled(b *csBeh, scale int) *csObs {
 		KeepHijackedConns:  b.Cfg.KeepHij,
 		Logger:             csNopLogger{},
 		MaxConnsPerIP:      map[bool]int{false: 0, true: 2}[b.Cfg.PerIP],
+		Concurrency:        map[bool]int{false: 0, true: 1}[b.Cfg.Busy],
 		StreamRequestBody:  csHasKind(b, "unread", "bigunread"),
 		ReadTimeout:        csTimeout(b) * time.Duration(scale),
 		IdleTimeout:        csTimeout(b) * time.Duration(scale),
 		ConnState: func(c net.Conn, st ConnState) {
 			if _, ok := c.(*csDisturbConn); ok {
-				return // unrelated traffic generated by csDisturb
+				return // unrelated traffic generated by csDisturb / the connection that keeps the server busy
+			}
+			if cc, ok := c.(*csConn); ok && cc.blocker {
+				return
 			}
 			o.mu.Lock()
 			if len(o.states) == 0 {
@@ -239,6 +261,11 @@ func csRunScaled(b *csBeh, scale int) *csObs {
 	s.Handler = func(ctx *RequestCtx) {
 		var idx int
 		if string(ctx.Path()) == "/disturb" {
+			return
+		}
+		if string(ctx.Path()) == "/block" {
+			close(blockerIn)
+			<-blockerGo // occupies the only concurrency slot until the scenario is over
 			return
 		}
 		fmt.Sscanf(string(ctx.Path()), "/r%d", &idx)
@@ -298,9 +325,26 @@ func csRunScaled(b *csBeh, scale int) *csObs {
 	var ln *fasthttputil.InmemoryListener
 	if b.Cfg.ViaServe {
 		ln = fasthttputil.NewInmemoryListener()
-		wl := &csListener{Listener: ln, got: make(chan *csConn, 1), tcpAddr: b.Cfg.PerIP}
+		wl := &csListener{Listener: ln, got: make(chan *csConn, 1), tcpAddr: b.Cfg.PerIP, firstIsBlocker: b.Cfg.Busy}
 		serveDone = make(chan struct{})
 		go func() { s.Serve(wl); close(serveDone) }() //nolint:errcheck
+		if b.Cfg.Busy {
+			// another connection holds the server's only concurrency slot
+			bc, err := ln.Dial()
+			if err != nil {
+				o.problems = append(o.problems, "infra: dial "+err.Error())
+				return o
+			}
+			defer bc.Close()
+			<-wl.got
+			bc.Write([]byte("GET /block HTTP/1.1\r\nHost: x\r\n\r\n")) //nolint:errcheck
+			select {
+			case <-blockerIn:
+			case <-time.After(10 * time.Second):
+				o.problems = append(o.problems, "infra: the blocking request never reached its handler")
+				return o
+			}
+		}
 		c, err := ln.Dial()
 		if err != nil {
 			o.problems = append(o.problems, "infra: dial "+err.Error())
@@ -309,6 +353,19 @@ func csRunScaled(b *csBeh, scale int) *csObs {
 		cli = c
 		srvConn.Store(<-wl.got)
 	} else {
+		if b.Cfg.Busy {
+			bpc := fasthttputil.NewPipeConns()
+			go s.ServeConn(&csDisturbConn{bpc.Conn1()}) //nolint:errcheck
+			bc := bpc.Conn2()
+			defer bc.Close()
+			bc.Write([]byte("GET /block HTTP/1.1\r\nHost: x\r\n\r\n")) //nolint:errcheck
+			select {
+			case <-blockerIn:
+			case <-time.After(10 * time.Second):
+				o.problems = append(o.problems, "infra: the blocking request never reached its handler")
+				return o
+			}
+		}
 		pc := fasthttputil.NewPipeConns()
 		sc := &csConn{Conn: pc.Conn1(), tcpAddr: b.Cfg.PerIP}
 		srvConn.Store(sc)
@@ -403,7 +460,7 @@ outer:
 			}
 		}
 	}
-	if !closedSeen && !hijSeen && len(o.problems) == 0 && b.ClientStalled {
+	if !closedSeen && !hijSeen && len(o.problems) == 0 && (b.ClientStalled || b.Cfg.Busy) {
 		// the client stays silent: whatever the server sends (an error response) and its close
 		for i := 0; i < 3 && !closedSeen; i++ {
 			switch it := readItem(); {
@@ -571,7 +628,7 @@ type csNopLogger struct{}
 func (csNopLogger) Printf(string, ...any) {}
 
 func csCfgKey(c csCfg) string {
-	return fmt.Sprintf("dk=%v maxReqs=%d rmu=%v serve=%v keepHij=%v perIP=%v", c.Dk, c.MaxReqs, c.Rmu, c.ViaServe, c.KeepHij, c.PerIP)
+	return fmt.Sprintf("dk=%v maxReqs=%d rmu=%v serve=%v keepHij=%v perIP=%v busy=%v", c.Dk, c.MaxReqs, c.Rmu, c.ViaServe, c.KeepHij, c.PerIP, c.Busy)
 }
 
 func csReqKey(r csReq) string {
